@@ -129,3 +129,17 @@ def replay_small(kind="clean"):
     c = {"kind": kind, "n": 30, "groups": 2, "d": 5.0, "greater": True, "feature": "tomo_id", "metric": "score", "seed": 5, "map": 12, "numbering": 1, "order": "zzx", "as_file": False, "diam": 3.5}
     r = run_case(c)
     return {"reproduced": r is not None, "input": c, "observed": r}
+
+
+def replay_clean(cfg=None):
+    """search small random particle lists for a native failure of the clean_by_distance clauses"""
+    import random
+    rng = random.Random(11)
+    for t in range(200):
+        c = {"kind": "clean", "n": rng.choice([2, 3, 5, 12, 40]), "groups": rng.choice([1, 2, 3]), "d": rng.choice([0.5, 2.0, 5.0, 9.0]),
+             "greater": (cfg or {}).get("keep_greater", rng.random() < 0.5), "feature": (cfg or {}).get("feature", "tomo_id"),
+             "metric": (cfg or {}).get("metric", "score"), "seed": t}
+        r = run_case(c)
+        if r is not None:
+            return {"reproduced": True, "input": c, "observed": r}
+    return {"reproduced": False, "input": "200 random particle lists", "observed": None}
